@@ -15,7 +15,8 @@ PARSING = "chempy/util/parsing.py"
 PERIODIC = "chempy/util/periodic.py"
 CLAIM = ("Decides: the element token regex denotes exactly the 118 symbols of periodic._elements with maximal "
          "munch; Z<->index offsets; parseAll/raise guards against silent truncation and contradictory charges; "
-         "multiplier dataflow of hydrate parts and groups; charge sign table.")
+         "multiplier dataflow of hydrate parts and groups; charge sign table."
+         ' Control skeleton of the pipeline (which arm runs for which token), parse actions wired, bracket pairs balanced (R7). Shared rule A1: no swapped same-named arguments at resolved in-package call sites.')
 DOES_NOT_DECIDE = ("pyparsing's own recursion, arithmetic of nested multipliers beyond the dataflow shape, "
                    "prefix/suffix stripping on arbitrary strings")
 ASSUMPTIONS = ["pyparsing Regex/Group/OneOrMore behave as documented", "Python re ordered-choice semantics",
